@@ -5,7 +5,7 @@
 (* 2/3 always); datum trees and transactions built from them.               *)
 EXTENDS UtxoRpc, TLC
 
-Ks == {0, 7, 8, 16, 31, 32, 62, 63, 64, 65, 72, 128}
+CONSTANT Ks      \* exponents k of the boundary values 2^k + d
 Ds == {-2, -1, 0, 1, 2}
 Values == { Add(Pow2(k), FromInt(d)) : k \in Ks, d \in Ds } \cup { Neg(Add(Pow2(k), FromInt(d))) : k \in Ks, d \in Ds }
 
